@@ -174,6 +174,39 @@ Theorem design_rejects_none : forall next r d,
 Proof. exact Proofs.Roadm.design_rejects_none. Qed.
 Print Assumptions design_rejects_none.
 
+(* ---- design step (set_roadm_input_powers): the reference input power of an ingress degree is what its feed
+        delivers; target_to_be_supported bounds every reference target the ROADM resolves; and when an ingress
+        degree raises no "target can not be met" condition, the reference channel leaves exactly on target *)
+Theorem input_powers_spec : forall pref b w feeds k,
+  zfind k (input_powers pref b w feeds) =
+  match zfind k feeds with Some f => Some (feed_power pref b w f) | None => None end.
+Proof. exact Proofs.Roadm.input_powers_spec. Qed.
+Print Assumptions input_powers_spec.
+
+Theorem supported_bounds_targets : forall r b w m,
+  supported r b w = Ok m -> refc r = Some (b, w) ->
+  forall deg rt, ref_target r deg = Ok (Some rt) -> rt <= m.
+Proof. exact Proofs.Roadm.supported_bounds_targets. Qed.
+Print Assumptions supported_bounds_targets.
+
+Theorem ref_on_target_when_supported : forall r deg from l o b w m rin mls mx,
+  propagate r deg from l = Ok o -> refc r = Some (b, w) -> supported r b w = Ok m ->
+  zfind from (refin r) = Some rin -> path_maxloss r from deg l = Ok (mls, mx) -> m + mx <= rin ->
+  exists rtg, ref_target r deg = Ok (Some rtg) /\ o_ref_out o == rtg /\ o_ref_loss o == rin - rtg.
+Proof. exact Proofs.Roadm.ref_on_target_when_supported. Qed.
+Print Assumptions ref_on_target_when_supported.
+
+(* ---- design step (set_roadm_internal_paths): every ingress/egress pair gets its internal path, express between
+        line degrees, drop towards / add from a transceiver degree, with the impairment id the user chose for it *)
+Theorem internal_paths_covers : forall profs pdis prev next drops adds calls,
+  internal_paths profs pdis prev next drops adds = Ok calls ->
+  let d := pdi_dict pdis in
+  (forall from to, In from prev -> In to next -> In (mkCall from to Express (pdi_find d from to)) calls) /\
+  (forall from dr, In from prev -> In dr drops -> In (mkCall from dr Drop (pdi_find d from dr)) calls) /\
+  (forall ad to, In ad adds -> In to next -> In (mkCall ad to Add (pdi_find d ad to)) calls).
+Proof. exact Proofs.Roadm.internal_paths_covers. Qed.
+Print Assumptions internal_paths_covers.
+
 (* ---- exactly one policy: equipment entry -> element config -> Roadm element *)
 Theorem one_policy_accepted : forall eq el t,
   no_null eq -> no_null el -> load_policy eq el = Ok t ->
@@ -277,3 +310,19 @@ Example ex_loader :
   load_policy (mkK (Val (-20)) Absent Absent) (mkK Absent Absent Absent) = Ok (Some (-20), None, None) /\
   no_null (mkK (Val (-20)) Absent Absent) /\ no_null (mkK Absent (Val (-34)) Absent).
 Proof. repeat split; try (vm_compute; reflexivity); cbn; discriminate. Qed.
+
+(* design step on ex_roadm: ingress 1 fed by an amplifier (pref 1 dBm, delta_p -0.5, out_voa 1.5), ingress 9 by a
+   transceiver, ingress 7 by a neighbour ROADM with PSD -35 through 2.5 dB of fused loss *)
+Example ex_design_inputs :
+  map (fun kv => (fst kv, Qred (snd kv))) (input_powers 1 15 17 [(1%Z, FEdfa (-1 # 2) (3 # 2) 0); (9%Z, FTrx 0); (7%Z, FRoadm (Psd (-35)) (5 # 2))])
+    = [(1%Z, -1); (9%Z, 1); (7%Z, (-45 # 2))] /\
+  match supported ex_roadm 15 17 with Ok m => m == -16 | Err _ => False end /\
+  warned (-16) [(1%Z, -1); (9%Z, 1); (7%Z, (-45 # 2))] = [7%Z].
+Proof. vm_compute. repeat split; reflexivity. Qed.
+
+Example ex_internal_paths :
+  internal_paths [mkProf 1 Add []; mkProf 2 Drop []] [mkPdi 9 3 1; mkPdi 1 9 2] [1]%Z [2; 3]%Z [9]%Z [9]%Z
+    = Ok [mkCall 1 2 Express None; mkCall 1 3 Express None; mkCall 1 9 Drop (Some 2%Z);
+          mkCall 9 2 Add None; mkCall 9 3 Add (Some 1%Z)] /\
+  (exists e, internal_paths [mkProf 1 Add []] [mkPdi 1 9 1] [1]%Z [2]%Z [9]%Z [9]%Z = Err e).
+Proof. split; [vm_compute; reflexivity | eexists; vm_compute; reflexivity]. Qed.
